@@ -465,3 +465,34 @@ func newLifeWorld(ctx *check.JobCtx, mons ...world.Monitor) *world.World {
 	check.SetWorld(w)
 	return w
 }
+
+// scnSponsoredNoPay: a sponsor pays for an owner DID that has no payment address; the owner terminates.
+func scnSponsoredNoPay(ctx *check.JobCtx) {
+	w := newLifeWorld(ctx, monitorsFor(ctx.Job.Prop)...)
+	p := DefaultLife()
+	p.Providers = 3
+	l := SetupLife(w, p)
+	if w.Halted() {
+		w.Finish()
+		return
+	}
+	dave := actors.NewKeyDid("dave-nopay")
+	g := l.GW[0]
+	for k := 0; k < 2 && !w.Halted(); k++ {
+		did := w.NewDataId()
+		_, oid := w.Store(world.StoreReq{Owner: dave, Gateway: g, Relayer: l.Sponsor.Pay, MsgProv: g.Acct.Addr.String(), DataId: did, CommitId: did,
+			Duration: 3600, Replica: 2, Timeout: 300, Size: 1_000_000, Sponsor: l.Sponsor.Id.DID()})
+		if oid == 0 {
+			continue
+		}
+		w.CompleteAll(oid)
+		w.EndBlock()
+		w.Advance(int64(100 + w.Rng.Intn(500)))
+		e := w.Terminate(dave, nil, g.Acct, "", did, nil)
+		w.Case("c06:terminate-for-owner-without-payment-address:accepted=%v", e.OK)
+		w.EndBlock()
+		w.Advance(5)
+	}
+	w.Sample("sponsored order of an owner without payment address: %s", traceSummary(w))
+	w.Finish()
+}
